@@ -11,6 +11,7 @@ from ..runner import Prop
 from .. import core
 from ..core import sx, parse_sx
 
+MAX_BATCH_DEPTH = 4                # 11 111 strings per exhaustive-context case
 ADDRESS_SPACE_KB = 2_000_000       # ulimit -v for the implementation side: a runaway allocation dies instead of hurting the machine
 
 BASIC = ["int", "uint", "short", "ushort", "byte", "ubyte", "float", "double", "char", "string", "lstring", "bigint"]
@@ -137,6 +138,7 @@ class C19(Prop):
     ASSUMPTIONS = ["model characters are ASCII (non-ASCII input is validated on the real code for 'returns' only)",
                    "3 + extra columns < 65536 (the header field count is a u16)"]
     PER_CASE_TIMEOUT = 10.0
+    MODEL_TIMEOUT = 900.0              # the extracted model does Peano arithmetic; on a loaded machine a 150-column schema takes minutes
 
     def __init__(self):
         self.nstrings = 0
@@ -165,25 +167,32 @@ class C19(Prop):
 
     # ------------------------------------------------------------------ generators
     def batch(self, prefix, depth, out, tag):
-        """all continuations of prefix up to depth, split by the first appended character"""
+        """all continuations of prefix up to depth, as cases of at most MAX_BATCH_DEPTH levels each (one case = one
+        prefix extension with all ITS continuations), so that no single case is heavy for the executable model"""
         a = len(DELIMS)
-        if depth == 0:
-            out.append((sx([2, DELIMS, prefix.encode(), 0]), [tag, "batch"])); self.nstrings += 1
+        pre = prefix if isinstance(prefix, bytes) else prefix.encode()
+        if depth <= MAX_BATCH_DEPTH:
+            out.append((sx([2, DELIMS, pre, depth]), [tag, "batch"]))
+            self.nstrings += sum(a ** k for k in range(depth + 1))
             return
-        out.append((sx([2, DELIMS, prefix.encode(), 0]), [tag, "batch"])); self.nstrings += 1
+        out.append((sx([2, DELIMS, pre, 0]), [tag, "batch"])); self.nstrings += 1
         for ch in DELIMS:
-            out.append((sx([2, DELIMS, prefix.encode() + bytes([ch]), depth - 1]), [tag, "batch"]))
-            self.nstrings += sum(a ** k for k in range(depth))
+            self.batch(pre + bytes([ch]), depth - 1, out, tag)
 
     def gen(self, rng, tier):
         quick = tier == "quick"
         self.nstrings = 0
         out = []
         # 1. the generator
-        ns = list(range(0, 41)) + ([41, 60, 100] if quick else list(range(41, 61)) + [100, 255])
+        ns = list(range(0, 41)) + ([41, 60, 100] if quick else list(range(41, 61)) + [100, 150])
         for n in ns:
             rest = "\t".join(rng.choice(["x", "1", "name", "0,1,", "+"]) for _ in range(n))
             out.append((sx([0, rest.encode()]), ["gen", "gen-n<=40" if n <= 40 else "gen-n>40"]))
+        # large n: the executable model is superlinear in the text length (Peano arithmetic), so these are judged by
+        # the property oracle on the implementation's output alone (the theorems cover every n)
+        for n in ([255] if quick else [255, 1000, 5000, 20000]):
+            rest = "\t".join("c%d" % i for i in range(n))
+            out.append((sx([0, rest.encode()]), ["gen", "gen-n>40", "gen-large", "oracle-only"]))
         for rest in ["\t", "\t\t\t", "a\t", "\tb", " ", "a b c"]:
             out.append((sx([0, rest.encode()]), ["gen", "gen-odd-rest"]))
         # 2. grammar-based schemas, their truncations and single-token mutations
@@ -192,16 +201,16 @@ class C19(Prop):
         schemas = [g.schema() for _ in range(nschema)]
         for text, counts in schemas:
             out.append((sx([1, text.encode(), [counts]]), ["grammar", f"decls={len(counts)}"]))
-        ntrunc = 6 if quick else 60
+        ntrunc = 6 if quick else 40
         for text, _ in [g.schema(maxf=4) for _ in range(ntrunc)]:
             b = text.encode()
             for k in range(len(b) + 1):
                 out.append((sx([1, b[:k], []]), ["truncation"] + (["empty"] if k == 0 else [])))
-        nmut = 40 if quick else 300
+        nmut = 40 if quick else 250
         for mi in range(nmut):
             text, _ = g.schema(maxf=4)
             toks = tokens(text)
-            exhaustive = (not quick) and mi < 5
+            exhaustive = (not quick) and mi < 3
             positions = range(len(toks)) if exhaustive else [rng.randrange(len(toks)) for _ in range(25 if quick else 60)]
             for i in positions:
                 muts = []
